@@ -630,6 +630,19 @@ class GriffeLoader:
             logger.debug("%s. Missing __init__ module?", error)
             return
         submodule_name = subparts[-1]
+        previous = parent_module.members.get(submodule_name)
+        if (
+            previous is not None
+            and not previous.is_alias
+            and previous.is_module
+            and subpath.suffix != ".pyi"
+            and isinstance(previous.filepath, Path)
+            and previous.filepath.suffix != ".pyi"
+            and _containing_directory(previous.filepath) != _containing_directory(subpath)
+        ):
+            # The same module in a later portion of a namespace package: like Python, the first one found wins.
+            logger.debug("Skip %s, already loaded from %s", subpath, previous.filepath)
+            return
         try:
             submodule = self._load_module(
                 submodule_name,
@@ -746,6 +759,11 @@ class GriffeLoader:
             # these placeholders are not objects, they must never be exposed.
             if imported_member.is_wildcard_exposed and not (imported_member.is_alias and imported_member.wildcard)
         ]
+
+
+def _containing_directory(filepath: Path) -> Path:
+    # The directory a module or a package lives in (the portion of its parent package).
+    return filepath.parent.parent if filepath.stem == "__init__" else filepath.parent
 
 
 def load(
